@@ -51,6 +51,11 @@ inductive CSStep (s : State) (op : Op) (s' : State) : Prop
       (hc : s'.c = (processMsg s.q s.c s.s h m ok).1) (hs : s'.s = (processMsg s.q s.c s.s h m ok).2.1)
   | viaRunner (h : Nat) (m : Msg) (ok : Bool)
       (hc : s'.c = (decidedViaRunner s h m ok).1.c) (hs : s'.s = (decidedViaRunner s h m ok).1.s)
+  | failCtrl (h : Nat) (m : Msg) (ok : Bool) (hop : op = .decidedSF h m.round m.root m.signers ok false)
+      (hc : s'.c = (processMsg s.q s.c s.s h m ok).1) (hs : s'.s = s.s)
+  | failRunner (h : Nat) (m : Msg) (ok : Bool) (hop : op = .decidedSF h m.round m.root m.signers ok true)
+      (hc : s'.c = (decidedViaRunnerSF s h m ok).1.c) (hs : s'.s = (decidedViaRunnerSF s h m ok).1.s)
+  | committed (root : Nat) (vc : Bool) (hc : s'.c = (commitsStep s root vc).1.c) (hs : s'.s = (commitsStep s root vc).1.s)
   | compacted (h : Nat) (hc : s'.c = compactAt s.c h) (hs : s'.s = s.s)
   | restarted (full : Bool) (hop : op = .restart full) (hc : s'.c = (loadHighest (newCtrl full) s.s).1) (hs : s'.s = s.s)
 
@@ -60,6 +65,35 @@ theorem restartStep_cs (s : State) (full : Bool) :
   unfold restartStep
   dsimp only
   split <;> exact ⟨rfl, rfl, rfl⟩
+
+/-- `commits` either does nothing (not applicable) or decides the fresh running instance `i` of height `rh` -/
+theorem commitsStep_cases (s : State) (root : Nat) (vc : Bool) :
+    ((commitsStep s root vc).1 = s ∧ (commitsStep s root vc).2 = .na) ∨
+    (∃ rh i, s.r.running = some rh ∧ find s.c.insts rh = some i ∧ i.decided = false ∧
+      (commitsStep s root vc).1.q = s.q ∧
+      (commitsStep s root vc).1.c = { s.c with insts := replaceInst { i with decided := true, commits := singles s.q root } s.c.insts } ∧
+      (commitsStep s root vc).1.s =
+        saveFound { s.c with insts := replaceInst { i with decided := true, commits := singles s.q root } s.c.insts } s.s rh
+          ⟨Gen.heights_FirstRound, root, List.range' 1 s.q⟩) := by
+  unfold commitsStep
+  cases hd : s.r.duty with
+  | none => left; exact ⟨rfl, rfl⟩
+  | some d =>
+    cases hr : s.r.running with
+    | none => left; exact ⟨rfl, rfl⟩
+    | some rh =>
+      simp only
+      cases hf : find s.c.insts rh with
+      | none => left; exact ⟨rfl, rfl⟩
+      | some i =>
+        simp only
+        split
+        · rename_i hg
+          right
+          refine ⟨rh, i, rfl, hf, ?_, rfl, rfl, rfl⟩
+          simp only [Bool.and_eq_true, Bool.not_eq_true'] at hg
+          exact hg.1.1.1
+        · left; exact ⟨rfl, rfl⟩
 
 theorem step_q (s : State) (op : Op) : (step s op).1.q = s.q := by
   cases op with
@@ -80,6 +114,12 @@ theorem step_q (s : State) (op : Op) : (step s op).1.q = s.q := by
       · simp only; rw [h]
       · exact h
   | decided h round root signers ok via => cases via <;> rfl
+  | decidedSF h round root signers ok via => cases via <;> rfl
+  | commits root vc =>
+    show (commitsStep s root vc).1.q = s.q
+    rcases commitsStep_cases s root vc with ⟨h, _⟩ | ⟨_, _, _, _, _, h, _⟩
+    · rw [h]
+    · exact h
   | compact h => rfl
   | restart full => exact (restartStep_cs s full).2.2
 
@@ -110,6 +150,11 @@ theorem step_cs (s : State) (op : Op) : CSStep s op (step s op).1 := by
     cases via
     · exact .viaCtrl h ⟨round, root, signers⟩ ok rfl rfl
     · exact .viaRunner h ⟨round, root, signers⟩ ok rfl rfl
+  | decidedSF h round root signers ok via =>
+    cases via
+    · exact .failCtrl h ⟨round, root, signers⟩ ok rfl rfl rfl
+    · exact .failRunner h ⟨round, root, signers⟩ ok rfl rfl rfl
+  | commits root vc => exact .committed root vc rfl rfl
   | compact h => exact .compacted h rfl rfl
   | restart full =>
     exact .restarted full rfl (restartStep_cs s full).1 (restartStep_cs s full).2.1
@@ -151,7 +196,7 @@ theorem Fresh.compact {c : Ctrl} {h : Nat} {m : Msg} (hf : Fresh c.insts h m) : 
     rw [find_replaceInst_same hfd (by rw [trim_height]; exact find_some_height hfd)] at hx
     cases hx
     obtain ⟨hd, hm⟩ := hf i hfd
-    exact ⟨hd, fun hr => mem_trim_commits.mpr ⟨hm hr, hr⟩⟩
+    exact ⟨hd, fun hr => by rw [longest_trim i _ _ hr]; exact hm hr⟩
 
 theorem compactAt_height (c : Ctrl) (h : Nat) : (compactAt c h).height = c.height := by
   unfold compactAt; split <;> rfl
@@ -159,10 +204,78 @@ theorem compactAt_height (c : Ctrl) (h : Nat) : (compactAt c h).height = c.heigh
 theorem uponDecided_insts (c : Ctrl) (st : Store) (h : Nat) (m : Msg) :
     (uponDecided c st h m).1.insts = (decidedBranch c st h m).1 := rfl
 
+/-- the controller part of `ProcessMsg` keeps the invariant against the UNCHANGED store (a failed write) -/
+theorem CInv.processMsg_ctrl {c : Ctrl} {st : Store} (inv : CInv c st) (q h : Nat) (m : Msg) (ok : Bool) :
+    CInv (Heights.processMsg q c st h m ok).1 st := by
+  rcases processMsg_cases q c st h m ok with he | ⟨_, _, he⟩
+  · rw [he]; exact inv
+  · rw [he]
+    have := uponDecided_eq c st h m
+    simp only at this
+    rw [this]
+    exact inv.branch h m
+
+theorem processMsg_height_ge (q : Nat) (c : Ctrl) (st : Store) (h : Nat) (m : Msg) (ok : Bool) :
+    c.height ≤ (processMsg q c st h m ok).1.height := by
+  rcases processMsg_cases q c st h m ok with he | ⟨_, _, he⟩
+  · rw [he]; exact Nat.le_refl _
+  · rw [he]; exact (uponDecided_height_ge _ _ _ _).2
+
+/-- the runner's own save after a `.new`: the instance of that height is fresh w.r.t. the message -/
+theorem fresh_of_new {s : State} {h : Nat} {m : Msg} {ok : Bool} (hnew : (processMsg s.q s.c s.s h m ok).2.2 = .new) :
+    s.q ≤ m.signers.length ∧ prevDecidedOf s.c s.s h = false ∧ processMsg s.q s.c s.s h m ok = uponDecided s.c s.s h m ∧
+    Fresh (processMsg s.q s.c s.s h m ok).1.insts h m ∧ h ≤ (processMsg s.q s.c s.s h m ok).1.height := by
+  rcases processMsg_cases s.q s.c s.s h m ok with he | ⟨_, hq, he⟩
+  · rw [he] at hnew; cases hnew
+  · have hpd : prevDecidedOf s.c s.s h = false := by
+      rw [he, uponDecided_out] at hnew
+      cases hpd : prevDecidedOf s.c s.s h
+      · rfl
+      · simp [hpd] at hnew
+    refine ⟨hq, hpd, he, ?_, ?_⟩
+    · rw [he, uponDecided_insts]
+      exact decidedBranch_fresh _ _ _ _ (branch_saves_of_not_prevDecided m hpd)
+    · rw [he]; exact (uponDecided_height_ge s.c s.s h m).1
+
+theorem runnerSaves_new {r : Runner} {h : Nat} {o : DOut} (hsv : runnerSaves r h o = true) : o = .new := by
+  unfold runnerSaves at hsv
+  simp only [Bool.and_eq_true] at hsv
+  simpa using hsv.1.1.1
+
+theorem CInv.commits {s : State} (inv : CInv s.c s.s) (root : Nat) (vc : Bool) :
+    CInv (commitsStep s root vc).1.c (commitsStep s root vc).1.s := by
+  rcases commitsStep_cases s root vc with ⟨h, _⟩ | ⟨rh, i, _, hf, hnd, _, hc, hs⟩
+  · rw [h]; exact inv
+  · rw [hc, hs]
+    have hih := find_some_height hf
+    have hrh : rh ≤ s.c.height := hih ▸ inv.top.le i (find_some_mem hf)
+    -- the container update alone keeps the invariant
+    have hc' : CInv { s.c with insts := replaceInst { i with decided := true, commits := singles s.q root } s.c.insts } s.s := by
+      refine ⟨inv.top.replace ⟨i, find_some_mem hf, rfl⟩, inv.le, inv.wf, ?_⟩
+      intro a ha hah
+      obtain ⟨i0, rest, hl, hi0, hcar⟩ := inv.live a ha hah
+      show ∃ i' rest', replaceInst _ s.c.insts = i' :: rest' ∧ _
+      rw [hl]
+      by_cases hh : rh = s.c.height
+      · have : i = i0 := by
+          rw [hl, find_cons] at hf
+          simp [hi0, hh] at hf
+          exact hf.symm
+        subst this
+        rw [hcar.1] at hnd; cases hnd
+      · rw [replaceInst_cons_other (by show i0.height ≠ i.height; omega)]
+        exact ⟨i0, _, rfl, hi0, hcar⟩
+    apply hc'.saveFound hrh
+    intro x hx
+    have hx' : find (replaceInst { i with decided := true, commits := singles s.q root } s.c.insts) rh = some x := hx
+    rw [find_replaceInst_same (i' := { i with decided := true, commits := singles s.q root }) hf hih] at hx'
+    cases hx'
+    exact ⟨rfl, fun _ => longest_singles s.q root⟩
+
 theorem SInv.step {s : State} (inv : SInv s) (op : Op) : SInv (step s op).1 := by
   unfold SInv at inv ⊢
-  rcases step_cs s op with ⟨hc, hs⟩ | ⟨slot, c', hst, hc, hs⟩ | ⟨h, m, ok, hc, hs⟩ | ⟨h, m, ok, hc, hs⟩ | ⟨h, hc, hs⟩ |
-    ⟨full, _, hc, hs⟩
+  rcases step_cs s op with ⟨hc, hs⟩ | ⟨slot, c', hst, hc, hs⟩ | ⟨h, m, ok, hc, hs⟩ | ⟨h, m, ok, hc, hs⟩ |
+    ⟨h, m, ok, _, hc, hs⟩ | ⟨h, m, ok, _, hc, hs⟩ | ⟨root, vc, hc, hs⟩ | ⟨h, hc, hs⟩ | ⟨full, _, hc, hs⟩
   · rw [hc, hs]; exact inv
   · rw [hc, hs]; exact inv.start hst
   · rw [hc, hs]; exact inv.processMsg s.q h m ok
@@ -200,6 +313,27 @@ theorem SInv.step {s : State} (inv : SInv s) (op : Op) : SInv (step s op).1 := b
         apply hc2.saveFound
         · rw [compactAt_height]; exact (uponDecided_height_ge s.c s.s h m).1
         · exact hfr.compact
+  · rw [hc, hs]; exact inv.processMsg_ctrl s.q h m ok
+  · rw [hc, hs]
+    unfold decidedViaRunnerSF
+    simp only
+    have hp := inv.processMsg_ctrl s.q h m ok
+    have hc2 : CInv (if s.q ≤ m.signers.length then compactAt (processMsg s.q s.c s.s h m ok).1 h else (processMsg s.q s.c s.s h m ok).1)
+        s.s := by
+      split
+      · exact hp.compact h
+      · exact hp
+    cases hsv : (runnerSaves s.r h (processMsg s.q s.c s.s h m ok).2.2 &&
+        (ok && decide (s.q ≤ m.signers.length) && firstSaveCalled s.c s.s h m))
+    · simpa using hc2
+    · simp only [if_true]
+      simp only [Bool.and_eq_true] at hsv
+      obtain ⟨hq, _, _, hfr, hle⟩ := fresh_of_new (runnerSaves_new hsv.1)
+      simp only [hq, if_true] at hc2 ⊢
+      apply hc2.saveFound
+      · rw [compactAt_height]; exact hle
+      · exact hfr.compact
+  · rw [hc, hs]; exact CInv.commits inv root vc
   · rw [hc, hs]; exact inv.compact h
   · rw [hc, hs]; exact inv.load full
 
